@@ -55,7 +55,7 @@ def replay_rqs(rqs, seed, frontend="wsgi", prefix="/", backend="tree"):
                     ops.append((p, VALUES[(x["p"], x["v"])] if x["set"] else None))
                 s.propupdate(rq["c"], ops)
             elif op == "Restart":
-                s.restart()
+                s.restart(defaults=bool(rq.get("defaults")))
         return s.trace(seed), s.concrete
     finally:
         s.close()
